@@ -31,7 +31,11 @@ EXPLANATION = (
     'other use materialises the engine\'s sqrt atom.  A second harness makes '
     'the TABLE symbolic too (any M <= 5/8 complex points through '
     'setConstellation), which covers every phase offset and every constellation '
-    'of that size.  Round trip: the real modulate runs on a symbolic label '
+    'of that size; a third rotates the real PSK(M) table (M <= 16/32) by a '
+    'symbolic unit phasor u+jv, u^2+v^2=1 (= any phase offset).  The real '
+    'PSK._createConstellation also runs with a symbolic offset (cos/sin as '
+    'uninterpreted functions with cos^2+sin^2=1; all 3^M outcomes of the 1e-15 '
+    'clamp, M in {2,4}) to prove unit energy of every point.  Round trip: the real modulate runs on a symbolic label '
     '(solver case split through __index__; BPSK: unbounded symbolic integer '
     'arithmetic) and the real demodulate on its output.  Table facts '
     '(distinct points, unit energy, round trip over all labels and index '
@@ -209,15 +213,17 @@ class Detect(Harness):
                  FU + ':Modulator.setConstellation')
     bounds = ('1 sample: BPSK (own detector, and the generic detector on its '
               'table), QPSK, PSK M in {2,4,8,16} x offsets {0, pi/M, 0.3} '
-              '(+ constructed then setPhaseOffset(0.3)), QAM M in {4,16}; '
-              'thorough: PSK 32 (3 offsets), PSK 64, QAM 64.  2 samples '
+              '(+ constructed then setPhaseOffset(0.3)), PSK 32 (pi/M), QAM '
+              'M in {4,16}; thorough: PSK 32 (3 offsets), PSK 64, PSK 128 (plane split '
+              'into the four closed quadrants), QAM 64.  2 samples '
               '(shapes (2,), (2,1), (1,2)): BPSK, QPSK, PSK 4, QAM 4, PSK 8; '
               'thorough: QAM 16.  Samples: all of C (two unbounded reals '
               'each); BPSK also real-valued samples')
     stubs = (_ABS_STUB, 'ndarray < 0 on object arrays: numpy calls the '
              'proxies\' lexicographic complex "<" per element')
     assumptions = tuple(ASSUMPTIONS)
-    outside = ('M beyond the enumerated orders (PSK > 64, QAM > 64) for the '
+    outside = ('M beyond the enumerated orders (PSK > 128, QAM > 64: QAM 256 '
+               'needs ~35 CPU-minutes) for the '
                'emitted tables; more than 2 samples per call (the detector is '
                'column-wise: argmin(axis=0))',
                'symbolic phase offset through the constructor (cos/sin with '
@@ -252,12 +258,19 @@ class Detect(Harness):
                 dict(kind='QAM', M=4, shape=[1]),
                 dict(kind='QAM', M=4, shape=[2]),
                 dict(kind='QAM', M=16, shape=[1, 1])]
+        out.append(dict(kind='PSK', M=32, off='pi/M', shape=[1]))
         if tier != 'quick':
             out += [dict(kind='PSK', M=32, off=off, shape=[1])
-                    for off in (0, 'pi/M', 0.3)]
+                    for off in (0, 0.3)]
             out += [dict(kind='PSK', M=64, off='pi/M', shape=[1]),
                     dict(kind='QAM', M=64, shape=[1]),
                     dict(kind='QAM', M=16, shape=[2])]
+            out += [dict(kind='PSK', M=128, off='pi/M', shape=[1],
+                         quad=[sx, sy]) for sx in (1, -1) for sy in (1, -1)]
+        # longest work units first (cost ~ paths x M)
+        out.sort(key=lambda c: -(c['M']**2) * (
+            c['M'] if len(c['shape']) and int(np.prod(c['shape'])) == 2
+            else 1))
         return out
 
     def _samples(self, ctx, cfg, n):
@@ -271,6 +284,12 @@ class Detect(Harness):
         shape = tuple(cfg['shape'])
         n = int(np.prod(shape, dtype=int)) if shape else 1
         rs = self._samples(ctx, cfg, n)
+        if cfg.get('quad'):
+            # the plane is split into the four closed quadrants (one unit
+            # each) to bound the size of a work unit
+            sx, sy = cfg['quad']
+            for r in rs:
+                ctx.assume(And(r.re * sx >= 0, r.im * sy >= 0))
         rx = _fill(shape, rs)
         out = _demod(m, cfg)(rx)
         if not _int_result(out, shape):
@@ -348,6 +367,9 @@ class Detect(Harness):
                 r = mid + eps * u + 1j * u * rng.uniform(-2, 2)
                 if rng.random() < 0.3:
                     r = complex(rng.uniform(-3, 3), rng.uniform(-3, 3))
+                if cfg.get('quad'):
+                    r = complex(cfg['quad'][0] * abs(r.real),
+                                cfg['quad'][1] * abs(r.imag))
                 vals.append(r.real if cfg.get('real') else r)
             bad, det = self._run_float(cfg, vals)
             if bad:
@@ -454,8 +476,9 @@ class DetectRotated(Harness):
     unit_wall_s = {'quick': 240, 'thorough': 1500}
 
     def configs(self, tier):
-        return [dict(M=M) for M in ((2, 4, 8, 16) if tier == 'quick' else
-                                    (2, 4, 8, 16, 32))]
+        # largest first: the longest work units start first
+        return [dict(M=M) for M in ((16, 8, 4, 2) if tier == 'quick' else
+                                    (32, 16, 8, 4, 2))]
 
     def sym(self, ctx, cfg):
         fu = repo_module(FU)
@@ -1302,7 +1325,7 @@ class Ctor(Harness):
         return cnt
 
 
-HARNESSES = [Detect(), DetectAnyTable(), DetectRotated(),
+HARNESSES = [DetectRotated(), Detect(), DetectAnyTable(),
              PskEnergyAnyOffset(), RoundTrip(), Table(), QamExact(),
              Reject(), RejectBpsk(), Ctor()]
 
@@ -1311,9 +1334,10 @@ MANIFEST = dict(
     text='Bounded symbolic model checking of the real Modulator/BPSK/PSK/QAM '
     'code: demodulate runs on symbolic complex samples (1-2 samples, several '
     'array shapes) against the tables the real constructors emit (BPSK, '
-    'QPSK, PSK 2..16 quick / ..64 thorough with offsets {0, pi/M, 0.3} and '
-    'after setPhaseOffset, QAM 4,16 / 64) and against fully symbolic tables '
-    'of <= 5/8 points; every argmin path is explored and z3 proves the '
+    'QPSK, PSK 2..32 quick / ..128 thorough with offsets {0, pi/M, 0.3} and '
+    'after setPhaseOffset, QAM 4,16 / 64), against fully symbolic tables of '
+    '<= 5/8 points and against the PSK table (M <= 16/32) rotated by a '
+    'symbolic unit phasor (any phase offset); every argmin path is explored and z3 proves the '
     'returned index minimises the squared Euclidean distance for ALL samples '
     'on the path.  Round trip on a solver-case-split symbolic label (M <= '
     '64; BPSK: unbounded integer), table facts (M distinct points, unit '
